@@ -92,6 +92,7 @@ func (r *Router) RestoreLastSavedState() error {
 
 func (r *Router) ServeHTTP(w http.ResponseWriter, req *http.Request) {
 	service, prefix := r.serviceForRequest(req)
+	verifPoint("req.routed", req.Header.Get("X-Request-ID"))
 	if service == nil {
 		SetErrorResponse(w, req, http.StatusNotFound, nil)
 		return
@@ -273,18 +274,22 @@ func (r *Router) deployTargetsIntoService(service *Service, targetSlot TargetSlo
 		lb.Dispose()
 		return err
 	}
+	verifPoint("deploy.healthy", service.name)
 
 	replaced := service.UpdateLoadBalancer(lb, targetSlot)
+	verifPoint("deploy.lbset", service.name)
 
 	err = r.installService(service)
 	if err != nil {
 		return err
 	}
+	verifPoint("deploy.installed", service.name)
 
 	if replaced != nil {
 		replaced.DrainAll(drainTimeout)
 		replaced.Dispose()
 	}
+	verifPoint("deploy.drained", service.name)
 
 	return nil
 }
@@ -326,17 +331,20 @@ func (r *Router) saveStateSnapshot() error {
 		}
 		return nil
 	})
+	verifPoint("snap.listed", r.statePath)
 
 	f, err := os.Create(r.statePath)
 	if err != nil {
 		return err
 	}
+	verifPoint("snap.created", r.statePath)
 
 	err = json.NewEncoder(f).Encode(services)
 	if err != nil {
 		slog.Error("Unable to save state", "error", err, "path", r.statePath)
 		return err
 	}
+	verifPoint("snap.written", r.statePath)
 
 	slog.Debug("Saved state", "path", r.statePath)
 	return nil
